@@ -458,4 +458,14 @@ def r02_6(ctx):
     return out
 
 
-RULES = [r02_1, r02_2, r02_3, r02_3b, r02_4, r02_5, r02_6]
+def r02_7(ctx):
+    from rules import C18
+    o = C18.r18_9(ctx)
+    o.rule = "R02.7"
+    o.text = ("the winding number that decides membership: for a curved boundary segment and a point off the origin it "
+              "is the sum of the angles subtended by the consecutive chords, each folded into (-1/2, 1/2] (same "
+              "analysis as R18.9)")
+    return o
+
+
+RULES = [r02_1, r02_2, r02_3, r02_3b, r02_4, r02_5, r02_6, r02_7]
